@@ -282,3 +282,81 @@ Theorem C19_evm_base_account_storage_refuted :
   (evm_ask auth (EvQStorage 5 0) <$> evm_init toy_hash v nm auth (evm_export auth s)) = Some (EvAO None).
 Proof. exact evm_base_account_storage_refuted_lemma. Qed.
 Print Assumptions C19_evm_base_account_storage_refuted.
+
+(** ** EVM: storage survives whatever the code of its account
+    For ALL states satisfying the invariant, every storage slot of every address comes back after
+    export -> InitGenesis (state, single-slot query, whole-storage query): InitGenesis runs the SetState
+    loop for every exported account -- there is no shortcut for accounts whose code is empty. *)
+Theorem C19_evm_storage_survives :
+  forall hash valid norm, (forall x y, hash x = hash y -> x = y) ->
+  forall auth s, evm_wf hash valid norm auth s ->
+    exists s', evm_init hash valid norm auth (evm_export auth s) = Some s' /\
+      (forall a, stor s' a = stor s a) /\
+      (forall a k, evm_ask auth (EvQStorage a k) s' = evm_ask auth (EvQStorage a k) s) /\
+      (forall a, evm_ask auth (EvQAccountStorage a) s' = evm_ask auth (EvQAccountStorage a) s).
+Proof. exact evm_storage_survives. Qed.
+Print Assumptions C19_evm_storage_survives.
+
+(** ... stated separately for an address WITHOUT code.  Empty code does not mean "externally owned
+    account": a contract creation whose constructor executes SSTORE and returns zero-length code (or
+    STOPs) leaves an account with the empty code hash AND storage ([EvCreate a 0] followed by [EvSStore]).
+    For every such address of every well-formed state: the re-imported state holds the same storage
+    there and still no code, every stored slot answers its value, the second document equals the first,
+    and both list the account with code "" and exactly its storage. *)
+Theorem C19_evm_codeless_storage_survives :
+  forall hash valid norm, (forall x y, hash x = hash y -> x = y) ->
+  forall auth s a, evm_wf hash valid norm auth s -> code_at auth s a = 0%N ->
+    exists s', evm_init hash valid norm auth (evm_export auth s) = Some s' /\
+      code_at auth s' a = 0%N /\
+      stor s' a = stor s a /\
+      (forall k v, stor s a !! k = Some v -> evm_ask auth (EvQStorage a k) s' = EvAO (Some v)) /\
+      evm_export auth s' = evm_export auth s /\
+      (stor s a <> ∅ ->
+       mk_ea a 0%N (export_map (stor s a)) ∈ vg_accounts (evm_export auth s) /\
+       mk_ea a 0%N (export_map (stor s a)) ∈ vg_accounts (evm_export auth s')).
+Proof. exact evm_codeless_storage_survives. Qed.
+Print Assumptions C19_evm_codeless_storage_survives.
+
+(** non-vacuity: [codeless_run] is reached from the empty state by [run_ok] operations (creation with
+    empty runtime at the fresh address 4 and at the clawback vesting account 6, the constructor's SSTOREs,
+    the control 5 with one byte of code, the externally owned account 1), satisfies the invariant, and
+    address 4 has no code and the slot 0 -> 42, which is exported and comes back. *)
+Example C19_evm_codeless_storage_nonvacuous :
+  let v := fun _ : N => true in let nm := fun p : N => p in
+  let auth := codeless_run.1 in let s := codeless_run.2 in
+  run_ok toy_hash v nm (∅, mk_evm 0 ∅ ∅) codeless_ops = true /\
+  evm_wf toy_hash v nm auth s /\
+  auth !! 4%N = Some (KEth, toy_hash 0) /\ auth !! 6%N = Some (KClawback, toy_hash 0) /\
+  code_at auth s 4 = 0%N /\ code_at auth s 6 = 0%N /\ code_at auth s 5 = 1%N /\
+  stor s 4 !! 0%N = Some 42%N /\ stor s 4 <> ∅ /\
+  evm_export auth s
+    = mk_evmg 0 [mk_ea 1 0 []; mk_ea 4 0 [(0, 42)]; mk_ea 5 1 [(0, 42)]; mk_ea 6 0 [(0, 42); (1, 7)]]%N /\
+  (evm_ask auth (EvQStorage 4 0) <$> evm_init toy_hash v nm auth (evm_export auth s)) = Some (EvAO (Some 42%N)) /\
+  (evm_ask auth (EvQAccountStorage 6) <$> evm_init toy_hash v nm auth (evm_export auth s))
+    = Some (EvAL [(0, 42); (1, 7)]%N) /\
+  (evm_export auth <$> evm_init toy_hash v nm auth (evm_export auth s)) = Some (evm_export auth s).
+Proof. exact evm_codeless_nonvacuous_lemma. Qed.
+Print Assumptions C19_evm_codeless_storage_nonvacuous.
+
+(** The shape of a seeded defect, refuted on that state: an InitGenesis that takes the exported accounts
+    with empty code for externally owned accounts and skips them before SetCode and the storage loop
+    ([evm_init_skip_codeless]).  The first document is the same; the skipping import loses the slot 0 -> 42
+    of 4 (and both slots of the vesting account 6): the Storage query answers nothing, the second document
+    lists 4 and 6 with an empty storage list, so export o init o export <> export -- while the control 5
+    (one byte of code) keeps its slot, and InitGenesis as it is ([evm_init]) keeps everything. *)
+Theorem C19_evm_skip_codeless_refuted :
+  let v := fun _ : N => true in let nm := fun p : N => p in
+  let auth := codeless_run.1 in let s := codeless_run.2 in
+  evm_wf toy_hash v nm auth s /\
+  code_at auth s 4 = 0%N /\
+  evm_ask auth (EvQStorage 4 0) s = EvAO (Some 42%N) /\
+  (evm_ask auth (EvQStorage 4 0) <$> evm_init_skip_codeless toy_hash v nm auth (evm_export auth s)) = Some (EvAO None) /\
+  (evm_ask auth (EvQStorage 6 1) <$> evm_init_skip_codeless toy_hash v nm auth (evm_export auth s)) = Some (EvAO None) /\
+  (evm_ask auth (EvQStorage 5 0) <$> evm_init_skip_codeless toy_hash v nm auth (evm_export auth s)) = Some (EvAO (Some 42%N)) /\
+  (evm_export auth <$> evm_init_skip_codeless toy_hash v nm auth (evm_export auth s))
+    = Some (mk_evmg 0 [mk_ea 1 0 []; mk_ea 4 0 []; mk_ea 5 1 [(0, 42)]; mk_ea 6 0 []]%N) /\
+  (evm_export auth <$> evm_init_skip_codeless toy_hash v nm auth (evm_export auth s)) <> Some (evm_export auth s) /\
+  (evm_ask auth (EvQStorage 4 0) <$> evm_init toy_hash v nm auth (evm_export auth s)) = Some (EvAO (Some 42%N)) /\
+  (evm_export auth <$> evm_init toy_hash v nm auth (evm_export auth s)) = Some (evm_export auth s).
+Proof. exact evm_skip_codeless_refuted_lemma. Qed.
+Print Assumptions C19_evm_skip_codeless_refuted.
